@@ -7,7 +7,7 @@ ids = [p['id'] for p in props]
 checks, na = [], []
 for pid in ids:
     path = os.path.join(V, 'props', pid + '.py')
-    if not os.path.exists(path):
+    if not os.path.exists(path) or not os.path.exists(os.path.join(V, 'baseline', pid + '.json')):
         na.append({'property_id': pid, 'reason': 'not yet built in this round: no contract check is registered for it (see DESIGN.md section 3 for the plan)'})
         continue
     pm = importlib.import_module('props.' + pid)
